@@ -159,7 +159,17 @@ func materialise(root string, spec *Spec, modname string) error {
 			}
 		}
 	}
-	for _, d := range []string{spec.Cwd, spec.Input.Path} {
+	// the working directory, the input directory and the include directories always exist (a
+	// missing include directory is the business of the out-of-domain stream only)
+	need := []string{spec.Cwd, spec.Input.Path}
+	if spec.Kind != "ood-missing-include" {
+		for _, inc := range spec.Includes {
+			if inc.Dir.Form != "raw" {
+				need = append(need, inc.Dir.Path)
+			}
+		}
+	}
+	for _, d := range need {
 		if err := os.MkdirAll(filepath.Join(root, filepath.FromSlash(d)), 0o755); err != nil {
 			return err
 		}
